@@ -616,9 +616,9 @@ def run(ck) -> None:
     ck.coverage["rule"] = ("non-trivial = the interruption hits an effect strictly between mkdtemp and the end of "
                            "the cleanup of a save whose destination already exists")
     ck.prove()
-    n_single = 22 if not ck.thorough else 400
-    n_shard = 8 if not ck.thorough else 120
-    n_par = 4 if not ck.thorough else 60
+    n_single = 36 if not ck.thorough else 400
+    n_shard = 10 if not ck.thorough else 120
+    n_par = 5 if not ck.thorough else 60
     runs, oracle_failures = [], []
     scns = [(s, "corpus") for s in load_corpus()]
     for i in range(n_single):
